@@ -2242,6 +2242,65 @@ def renumber(module):
 
 
 # ---------------------------------------------------------------------------------------------------------------
+def positionalise_keywords(repo):
+    """Step S42 (whole repository): `f(a=x, b=y)` -> `f(x, y)` when a, b are the leading parameters of every repository function
+    called f (in that order) and the positional spelling is the one the reference function has in that place.  The binding of
+    arguments to parameters is unchanged."""
+    import copy as _c10
+    ref = refshapes()
+    by_name = {}
+    for rel, m in repo.modules.items():
+        for lname, fn in m.funcs.items():
+            if '<locals>' in lname or fn.args.vararg or fn.args.kwarg or fn.args.posonlyargs:
+                continue
+            ps = [a.arg for a in fn.args.args]
+            if '.' in lname and ps and ps[0] in ('self', 'cls'):
+                ps = ps[1:]
+            nm = lname.rpartition('.')[2]
+            if nm == '__init__':
+                nm = lname.rpartition('.')[0]
+            by_name.setdefault(nm, []).append(ps)
+    done = {}
+    for rel, m in repo.modules.items():
+        for lname, fn in m.funcs.items():
+            r = ref.get(rel + '::' + lname)
+            if not r:
+                continue
+            blob = '\n'.join(list(r.get('tests', ())) + list(r.get('stmts', ())) + list(r.get('cmp', ())))
+            for c in [x for x in ast.walk(fn) if isinstance(x, ast.Call) and x.keywords]:
+                f = c.func
+                nm = f.attr if isinstance(f, ast.Attribute) else (f.id if isinstance(f, ast.Name) else None)
+                sigs = by_name.get(nm)
+                if not sigs or any(isinstance(a, ast.Starred) for a in c.args) or any(k.arg is None for k in c.keywords):
+                    continue
+                kw = {k.arg: k.value for k in c.keywords}
+                npos = len(c.args)
+                order = None
+                for ps in sigs:
+                    take = []
+                    for p_ in ps[npos:]:
+                        if p_ in kw:
+                            take.append(p_)
+                        else:
+                            break
+                    if order is None:
+                        order = take
+                    elif order != take:
+                        order = []
+                if not order:
+                    continue
+                new = _c10.deepcopy(c)
+                new.args = list(new.args) + [_c10.deepcopy(kw[p_]) for p_ in order]
+                new.keywords = [k for k in new.keywords if k.arg not in order]
+                if U(new) in blob:
+                    c.args, c.keywords = new.args, new.keywords
+                    done.setdefault(rel + '::' + lname, []).append(nm)
+        if any(k.startswith(rel + '::') for k in done):
+            ast.fix_missing_locations(m.tree)
+            m.reindex()
+    return done
+
+
 def normalise_signatures(repo):
     """Step S33 (whole repository): a function of the reference tree whose parameter list was PERMUTED, or whose parameters were
     RENAMED position by position, gets its reference parameter list back, and every call site is re-bound accordingly
